@@ -227,6 +227,48 @@ impl TSpec {
             _ => self.build_interleaved::<K>(),
         }
     }
+    /// Build over a raw arena whose root was replaced with `Tree::add_root`: a former tree (a decision with the
+    /// spec's first predicate-or-terminal row shape and one terminal that differs from every terminal of the spec by
+    /// a shifted bias, or a lone shifted terminal) stays behind at the indices 0.. unreachable, the real root sits at a
+    /// later index. `variant` 0: the former tree is one terminal; 1: the former tree is a decision with one terminal
+    /// child (only when the spec is a decision).
+    pub fn build_rerooted<const K: usize>(&self, variant: u8) -> AffTree<K> {
+        use affinitree::pwl::node::AffContent;
+        use affinitree::tree::graph::Tree;
+        fn first_leaf(s: &TSpec) -> &Aff {
+            match s {
+                TSpec::Leaf(a) => a,
+                TSpec::Dec(_, ch) => first_leaf(ch.iter().flatten().next().expect("decision with a child")),
+            }
+        }
+        let in_dim = self.aff().indim;
+        let mut decoy = first_leaf(self).clone();
+        for b in decoy.bias.iter_mut() {
+            *b += 1.0;
+        }
+        let mut raw: Tree<AffContent, K> = match (self, variant % 2) {
+            (TSpec::Dec(p, _), 1) => {
+                let mut raw = Tree::<AffContent, K>::with_root(AffContent::new(p.to_real()), 8);
+                raw.add_child_node(0, K - 1, AffContent::new(decoy.to_real())).unwrap();
+                raw
+            }
+            _ => Tree::<AffContent, K>::with_root(AffContent::new(decoy.to_real()), 8),
+        };
+        let root = raw.add_root(AffContent::new(self.aff().to_real()));
+        assert_ne!(root, 0);
+        fn rec<const K: usize>(t: &mut affinitree::tree::graph::Tree<affinitree::pwl::node::AffContent, K>, idx: usize, s: &TSpec) {
+            if let TSpec::Dec(_, ch) = s {
+                for (l, c) in ch.iter().enumerate() {
+                    if let Some(c) = c {
+                        let ci = t.add_child_node(idx, l, affinitree::pwl::node::AffContent::new(c.aff().to_real())).unwrap();
+                        rec(t, ci, c);
+                    }
+                }
+            }
+        }
+        rec(&mut raw, root, self);
+        AffTree::<K>::from_tree(raw, in_dim)
+    }
     /// Build through a history: a decoy subtree is inserted first and removed again so that
     /// arena indices are non-contiguous and re-used.
     pub fn build_scrambled<const K: usize>(&self) -> AffTree<K> {
